@@ -199,22 +199,14 @@ def goodbye(ctx: Any) -> List[Ob]:
     oc3b, _ = traces(ctx, g, {'.done': True}, eff2)
     tr3b = {tuple(x for x in strip_ret(t) if x != 'START') for t in oc3b}
     obs.append(ob(R, g, 'async_close() on a closed instance', 'browsers removed, goodbyes (none left), close (a no-op)', tr3b == {('BROWSERS', 'UNREG', 'CLOSE')}, f'traces {sorted(tr3b)}'))
-    # nothing can run between the last goodbye and the closing of the gate: the goodbye routine does not suspend after its
-    # last transmission (a task that is still announcing would otherwise wake up in that window and re-announce with full TTLs)
+    # nothing registered survives the goodbye routine, and nothing can run between its return and the closing of the gate
     ua = prog.func(ZC + '.async_unregister_all_services')
     cfg_u = cfg_of(ua.node)
     sends_u = cfg_u.nodes_calling('async_send')
     if not sends_u:
         raise AnalysisError('anchor vanished: async_send in async_unregister_all_services')
     aw_u = [n for n in cfg_u.nodes if any(isinstance(x, ast.Await) for e in n.exprs() for x in ast.walk(e))]
-    trailing = []
-    for a in aw_u:
-        reached = any(cfg_u.can_reach(s_, a) for s_ in sends_u)
-        w = cfg_u.path_avoiding(a, lambda n: n is cfg_u.exit, lambda n: n in sends_u)
-        if reached and w is not None:
-            trailing.append(a)
-    obs.append(ob(R, ua, trailing[0].ast if trailing else 'goodbye loop', 'the routine returns straight after the last goodbye (it suspends only before a transmission that is still to come)', not trailing, f'the wait at line {trailing[0].line} can follow the last goodbye: the instance is still open while it sleeps' if trailing else ''))
-    # ... and what it withdrew is everything that is registered when it returns: a registration that was still probing can
+    # what it withdrew is everything that is registered when it returns: a registration that was still probing can
     # complete while the goodbyes are being sent, so after the last suspension the registry is looked at again
     bad_paths = []
     n_paths = 0
